@@ -64,7 +64,10 @@ TRewrap == Ev.ev = "rewrap" /\ ~Ev.panic /\ Rewrap(Ev.src, Ev.dst)
 
 TGet == /\ Ev.ev = "get"
         /\ LET f == F(FI(Ev)) IN
-           IF Ev.idx < Count(f)
+           IF Ev.idx < Count(f) /\ DupBits(f)
+           THEN /\ GetDup(Ev.slot, FI(Ev), Ev.idx)                    \* value unspecified (C04), but total (C16)
+                /\ Ev.res.k # "panic"
+           ELSE IF Ev.idx < Count(f)
            THEN /\ Get(Ev.slot, FI(Ev), Ev.idx)
                 /\ SameObs(Ev.res, out')
                 /\ DecOK(f, Ev.res, out'.v)
@@ -73,7 +76,12 @@ TGet == /\ Ev.ev = "get"
 
 TWith == /\ Ev.ev = "with"
          /\ LET f == F(FI(Ev)) IN
-            IF Ev.idx < Count(f)
+            IF Ev.idx < Count(f) /\ DupBits(f)
+            THEN /\ ~Ev.panic /\ ~Ev.raw_panic
+                 /\ WithDup(Ev.src, Ev.dst, FI(Ev), Ev.idx, S(Ev.dst_raw))
+                 /\ S(Ev.store) = S(Ev.dst_raw)
+                 /\ (Ev.src # Ev.dst => S(Ev.src_raw) = obj[Ev.src])
+            ELSE IF Ev.idx < Count(f)
             THEN /\ ~Ev.panic /\ ~Ev.raw_panic
                  /\ With(Ev.src, Ev.dst, FI(Ev), Ev.idx, S(Ev.arg))
                  /\ S(Ev.dst_raw) = obj'[Ev.dst]                       \* exactly the field rewritten
@@ -85,7 +93,11 @@ TWith == /\ Ev.ev = "with"
 
 TSet == /\ Ev.ev = "set"
         /\ LET f == F(FI(Ev)) IN
-           IF Ev.idx < Count(f)
+           IF Ev.idx < Count(f) /\ DupBits(f)
+           THEN /\ ~Ev.panic /\ ~Ev.raw_panic
+                /\ WithDup(Ev.slot, Ev.slot, FI(Ev), Ev.idx, S(Ev.raw))
+                /\ S(Ev.store) = S(Ev.raw)
+           ELSE IF Ev.idx < Count(f)
            THEN /\ ~Ev.panic /\ ~Ev.raw_panic
                 /\ Set(Ev.slot, FI(Ev), Ev.idx, S(Ev.arg))
                 /\ S(Ev.raw) = obj'[Ev.slot]
